@@ -126,6 +126,8 @@ class Run:
                 hit = self.known_hits.setdefault(k["key"], {"what": k["what_fails"], "n": 0})
                 hit["n"] += 1
                 return False
+        if os.environ.get("VERIF_DEBUG"):
+            print("  [debug] violation: %s tags=%s" % (clause, json.dumps(jsonable(tags))))
         if len(self.violations) < 20:
             self.violations.append({"clause": clause, "case": jsonable(case), "tags": jsonable(tags)})
         else:
